@@ -1344,6 +1344,9 @@ func (f *Frugal) validateServices(includes map[string]*Frugal) error {
 		if err := f.validateServiceTypes(service, includes); err != nil {
 			return err
 		}
+		if err := f.validateServiceExtends(service); err != nil {
+			return err
+		}
 		if err := service.validate(); err != nil {
 			return err
 		}
@@ -1374,6 +1377,52 @@ func (f *Frugal) validateServiceTypes(service *Service, includes map[string]*Fru
 	}
 	return nil
 }
+
+// validateServiceExtends ensures the service a service extends exists, in this
+// file or in the include it is named in, and that no service of this file
+// extends itself, directly or through other services.
+func (f *Frugal) validateServiceExtends(service *Service) error {
+	visited := make(map[string]bool)
+	for current := service; current.Extends != ""; {
+		if visited[current.Name] {
+			return fmt.Errorf("Circular extends %s", service.Name)
+		}
+		visited[current.Name] = true
+
+		frugal := f
+		if include := current.ExtendsInclude(); include != "" {
+			parsed, ok := f.ParsedIncludes[include]
+			if !ok {
+				return fmt.Errorf("Invalid extends %s for service %s",
+					current.Extends, current.Name)
+			}
+			frugal = parsed
+		}
+		extended := frugal.findService(current.ExtendsService())
+		if extended == nil {
+			return fmt.Errorf("Invalid extends %s for service %s",
+				current.Extends, current.Name)
+		}
+		if frugal != f {
+			// Includes have been validated already and cannot refer back to
+			// this file.
+			return nil
+		}
+		current = extended
+	}
+	return nil
+}
+
+// findService returns the service of this file with the given name, if any.
+func (f *Frugal) findService(name string) *Service {
+	for _, service := range f.Services {
+		if name == service.Name {
+			return service
+		}
+	}
+	return nil
+}
+
 func (f *Frugal) validateScopes(includes map[string]*Frugal) error {
 	for _, scope := range f.Scopes {
 		if err := f.validateScopeTypes(scope, includes); err != nil {
